@@ -74,7 +74,7 @@ def event_for_case(samples, cid, nc, ids, variant):
         labels = np.array(labels, dtype=np.uint8 if max(labels) < 256 else np.int64)   # narrow label ids
         preds = np.array(preds, dtype=np.int64)                                        # default-int predictions
     used = {s[0] for s in samples} | {s[1] for s in samples} | (set(classes_arg) if explicit else set())
-    if naming == "int" and used <= {0, 1} and (cid + variant) % 2:
+    if naming == "int" and used <= {0, 1} and (cid // 4 + variant) % 2:
         # hard 0/1 labels stored as booleans next to integer predictions / integer class names (True == 1)
         naming = e["naming"] = "bool"
         labels = np.array(labels, dtype=bool)
